@@ -2,13 +2,17 @@
 from propslib import comp_scope
 
 PROP = dict(
-    extract=["estimate", "breakwords", "topscore"],
-    lean_targets=["Chewing.Props.C08"],
-    runs=[dict(bin="learn", timeout=1200, timeout_thorough=3000)],
-    scope=comp_scope("learn"),
+    extract=["estimate", "breakwords", "topscore", "capi_user"],
+    lean_targets=["Chewing.Props.C08", "Chewing.Props.C08CApi"],
+    runs=[dict(bin="learn", timeout=1200, timeout_thorough=3000),
+          # the learning entry point of the C API (chewing_userphrase_add = Editor::learn_phrase) and the other user-phrase calls:
+          # records `capiuser …` (Driver/CApiUser.lean, Model/CApiUser.lean) + the statements of Props/C08CApi.lean on the real C context
+          dict(bin="capi_props", tag="capi_props", args=["--histories", "300", "--calls", "40"], args_thorough=["--histories", "6000", "--calls", "40"])],
+    scope=comp_scope("learn", "capiuser"),
     level="proof",
     exhaustive=False,
-    rule="one evaluation = one implementation record recomputed by the model: `learn est` (estimate on a grid of all band "
+    rule="Records `capiuser …` (run capi_props, work package capiuser): one evaluation = one user-phrase or context-writing configuration call of a generated C-API history (chewing_userphrase_add / _remove / _lookup with arbitrary strings - mismatched lengths, unparsable / empty / NULL / non-UTF-8, phrases already there -, the enumeration triple, chewing_set_KBType, chewing_config_set_str, chewing_set_selKey with any len): the record carries what the REAL context enumerates before the call and the REAL return value / enumeration after it; Model/CApiUser.lean (Driver/CApiUser.lean) recomputes both; the statements of Props/C08CApi.lean (add success => looked up and enumerated, refusal => dictionary unchanged, remove, lookup = enumeration, purity) are evaluated on the real context (#stat user_add_success, user_add_refused, user_add_calls_with_mismatched_lengths, user_remove_success, user_lookup_found, user_records_*). "
+         "Otherwise: one evaluation = one implementation record recomputed by the model: `learn est` (estimate on a grid of all band "
          "boundaries x frequency edges + seeded random points, panics included), `learn commit` (user dictionary before, "
          "committed intervals + symbols, auto-learn flag, clock => user dictionary after, through a real Editor), "
          "`learn default` (default conversion of the bare syllables after each learning), `learn maxfrom`; "
